@@ -136,6 +136,12 @@ JudgeMemo(pre, obs) ==
   IF got = pre.memoLog THEN {}
   ELSE {Viol("C20", <<"memoised builder invocations", got, "expected", pre.memoLog>>)}
 
+\* C06: function cutoffs are consulted with (old, new) in that order, exactly when the spec says
+JudgeCut(pre, obs) ==
+  LET got == {[n |-> obs.cut[i].n, old |-> obs.cut[i].old, new |-> obs.cut[i].new] : i \in 1..Len(obs.cut)}
+      want == {pre.cutLog[i] : i \in 1..Len(pre.cutLog)} IN
+  IF got = want THEN {} ELSE {Viol("C06", <<"cutoff consultations (node, old, new)", got, "expected", want>>)}
+
 \* C07: reads issued from inside user functions of the round
 JudgeInReads(pre, obs) ==
   LET got == [i \in 1..Len(obs.inreads) |-> [o |-> obs.inreads[i].o, r |-> obs.inreads[i].r]] IN
@@ -145,8 +151,9 @@ JudgeVars(post, obs) ==
   {Viol("C08", <<"var", v, "holds", obs.cells[v], "expected", post.cell[v]>>) :
      v \in {x \in 1..Min(post.n, Len(obs.cells)) :
               post.def[x].k = "var" /\ obs.cells[x][1] # "gone" /\ obs.cells[x] # post.cell[x]}}
-  \cup (IF obs.stable # IsStable(post)
-        THEN {Viol("C08", <<"is_stable", obs.stable, "expected", IsStable(post)>>)} ELSE {})
+  \* only the promised direction: pending propagation (a write to a necessary var) => not stable
+  \cup (IF obs.stable /\ post.rchLen > 0
+        THEN {Viol("C08", <<"is_stable() is true although a write to an observed variable is pending">>)} ELSE {})
 
 JudgeRets(post, obs) ==
   IF obs.rets = post.retLog THEN {}
@@ -223,21 +230,21 @@ SnapState(post, sn) ==
      !.stats = [post.stats EXCEPT !.becameNec = sn.becamenec, !.becameUnnec = sn.becameunnec],
      !.status = sn.status, !.num = sn.num]
 
-AuditParts(s) ==
-  (IF AuditEdges(s) THEN {} ELSE {"edges"}) \cup (IF AuditParents(s) THEN {} ELSE {"parents"})
-  \cup (IF AuditHeights(s) THEN {} ELSE {"heights"}) \cup (IF AuditHeap(s) THEN {} ELSE {"heap"})
-  \cup (IF AuditCounters(s) THEN {} ELSE {"counters"}) \cup (IF AuditStable(s) THEN {} ELSE {"values"})
 JudgeAudit(post, obs) ==
   IF obs.panic # "" \/ ~Ok(post) \/ obs.snap.status # "idle" THEN {} ELSE
   LET s == SnapState(post, obs.snap) IN
   {Viol("C11", <<"audit failed", p>>) : p \in AuditParts(s)}
 
 \* C12: released nodes = nodes no strong reference reaches
-JudgeOwn(post, obs) ==
+\* (the property promises release "after one stabilise has run": leaks are judged right after a
+\* stabilise only; a node freed while still referenced is wrong at any time)
+JudgeOwn(post, obs, afterStabilise) ==
   IF obs.panic # "" \/ ~Ok(post) \/ post.poisoned \/ post.status # "idle" THEN {} ELSE
   LET rel == SeqSet(obs.snap.rel) \cap (1..post.n)
       want == Released(post) IN
-  {Viol("C12", <<"node", n, "is still alive although nothing references it">>) : n \in want \ rel}
+  (IF afterStabilise
+   THEN {Viol("C12", <<"node", n, "is still alive although nothing references it">>) : n \in want \ rel}
+   ELSE {})
   \cup {Viol("C12", <<"node", n, "was released although it is still referenced">>) : n \in rel \ want}
 
 \* binding C: the snapshot must equal the spec state on the engine's own variables
@@ -295,8 +302,8 @@ TraceStep ==
                      \cup (IF obs.panic # "" /\ ~Ok(post) THEN JudgeReads(Recover(post), obs) ELSE {})
                      \cup (IF obs.panic = "" /\ Ok(post)
                            THEN JudgeReads(post, obs) \cup JudgeVars(post, obs) \cup JudgeRets(post, obs)
-                                \cup (IF e.a = "stabilise" THEN JudgeInv(pre, obs, coneB) \cup JudgeDlv(pre, obs) \cup JudgeInReads(pre, obs) \cup JudgeMemo(pre, obs) ELSE {})
-                                \cup JudgeAudit(post, obs) \cup JudgeOwn(post, obs)
+                                \cup (IF e.a = "stabilise" THEN JudgeInv(pre, obs, coneB) \cup JudgeDlv(pre, obs) \cup JudgeInReads(pre, obs) \cup JudgeMemo(pre, obs) \cup JudgeCut(pre, obs) ELSE {})
+                                \cup JudgeAudit(post, obs) \cup JudgeOwn(post, obs, e.a = "stabilise")
                            ELSE {})
               div == IF obs.panic = "" /\ Ok(post) THEN Diverge(post, obs.snap)
                      ELSE IF obs.panic = "" /\ ~Ok(post) THEN {"model_panics:" \o post.panic} ELSE {}
